@@ -282,25 +282,34 @@ def run(ctx):
             problems.add(f"the final status event carries test_tags={dict(finals[0][2]).get('test_tags', 'nothing')!r} instead of self.current_tags")
     ctx.check("R-OBSERVED-TAGS", "final status event carries the tags current at the outcome", conv, bool(res) and not problems,
               "; ".join(sorted(problems)) or "no path explored", examined=len(res), construct=f"{REAL}:ExtendedToStreamDecorator._convert::final-tags")
-    uc = own_method(ctx, REAL, "_StreamToTestRecord", "_update_case")
-    from . import recordmodel as rm
-    T1, T3 = ("tags", "T1"), ("tags", "T3")
+    from . import streamobjects as so
+    core = classes.get(REAL, "_StreamToTestRecord")
+    T1, T3 = ("sym", "tags-1"), ("sym", "tags-3")
+    IP, OK = ("const", "inprogress"), ("const", "success")
     problems = set()
     n = 0
     for name, hist, want in [
-        ("tags on an interim event, none on the final one", [rm.event(status=("const", "inprogress"), tags=T1), rm.event(status=("const", "success"))], T1),
-        ("tags on both events", [rm.event(status=("const", "inprogress"), tags=T1), rm.event(status=("const", "success"), tags=T3)], T3),
-        ("tags on the final event only", [rm.event(status=("const", "inprogress")), rm.event(status=("const", "success"), tags=T3)], T3),
+        ("tags on an interim event, none on the final one", [so.event(status=IP, tags=T1), so.event(status=OK)], T1),
+        ("tags on both events", [so.event(status=IP, tags=T1), so.event(status=OK, tags=T3)], T3),
+        ("tags on the final event only", [so.event(status=IP), so.event(status=OK, tags=T3)], T3),
     ]:
-        states, _ = rm.run_history(ctx, hist)
-        n += len(states)
-        if not states:
+        d = so.Driver(ctx, core, so.StreamDomain(classes))
+        runs = d.call(d.construct([so.ON_TEST]), "startTestRun")
+        for ev in hist:
+            runs = d.call(runs, "status", kw=ev)
+        runs = d.call(runs, "stopTestRun")
+        d.done()
+        n += len(runs)
+        if not runs:
             problems.add(f"{name}: no path returns normally")
-        for s_ in states:
-            got = [r_[3] for r_ in s_.get("ev.reports", ())]
+        for r in runs:
+            if r.kind == "exc":
+                problems.add(f"{name}: the consumer raises {r.value!r}")
+                continue
+            got = [dict(pos[0][2]).get("tags") if pos and isinstance(pos[0], tuple) and pos[0][:1] == ("object",) else None for pos, kw in r.state.get("ev.reports", ())]
             if got != [want]:
                 problems.add(f"{name}: the record is reported with tags {got}, expected [{want}]")
-    ctx.check("R-OBSERVED-TAGS", "a record's tags are the latest tags an event carried", uc, not problems,
+    ctx.check("R-OBSERVED-TAGS", "a record's tags are the latest tags an event carried", core.node, not problems,
               "; ".join(sorted(problems)) + " (an event without tags would erase them, or tags would never be taken)", examined=n, construct=f"{REAL}:_StreamToTestRecord._update_case::latest-tags")
     from .common import EMPTY_SET, PH_TAGS, placeholder_runs
     ph, logs, n = placeholder_runs(ctx)
